@@ -122,6 +122,55 @@ var c18Reqs = []struct {
 	}},
 }
 
+// element templates for the "n list elements" families: lower-case tokens, mixed/upper case,
+// non-token bytes, non-ASCII, padded, long
+var c18Elems = []string{"X-Aa", "UPPER", "x@y", "\xc3\xa9", " a", "a ", "x-listed-1", "averyveryverylongheadernamethatisnotallowed", "\x00", "a;b"}
+
+func init() {
+	for _, el := range c18Elems {
+		el := el
+		c18Reqs = append(c18Reqs, struct {
+			name     string
+			elements bool
+			mk       func(n int) Req
+		}{fmt.Sprintf("preflight, ACRH with n elements %q", el), true, func(n int) Req {
+			return preflightReq("https://a.example.com", "PUT", []string{strings.Repeat(el+",", n) + el}, false)
+		}}, struct {
+			name     string
+			elements bool
+			mk       func(n int) Req
+		}{fmt.Sprintf("preflight, n ACRH field lines %q", el), true, func(n int) Req {
+			v := make([]string, n)
+			for i := range v {
+				v[i] = el
+			}
+			return preflightReq("https://a.example.com", "GET", v, false)
+		}})
+	}
+	for _, b := range []string{"M", "m", "\xff", " "} {
+		b := b
+		c18Reqs = append(c18Reqs, struct {
+			name     string
+			elements bool
+			mk       func(n int) Req
+		}{fmt.Sprintf("preflight, ACRM of n bytes %q", b), false, func(n int) Req {
+			return preflightReq("https://a.example.com", strings.Repeat(b, n), []string{"x-listed-1"}, false)
+		}}, struct {
+			name     string
+			elements bool
+			mk       func(n int) Req
+		}{fmt.Sprintf("actual GET, Origin https://a.example.com + n bytes %q", b), false, func(n int) Req {
+			return actualReq("GET", "https://a.example.com"+strings.Repeat(b, n))
+		}}, struct {
+			name     string
+			elements bool
+			mk       func(n int) Req
+		}{fmt.Sprintf("preflight, Origin with n bytes %q before an allowed suffix", b), false, func(n int) Req {
+			return preflightReq("https://"+strings.Repeat(b, n)+".example.com", "PUT", nil, false)
+		}})
+	}
+}
+
 const (
 	c18Ceiling = 10 // absolute bound on allocations per request (today: 0-2)
 	c18Slack   = 2  // tolerated difference between small and large sizes
@@ -129,7 +178,7 @@ const (
 
 func TestVerif_C18(t *testing.T) {
 	r := newRun(t, "C18")
-	r.Rule("configuration kinds {allow-all, discrete, `*` headers anonymous, anonymous+authorization, credentialed, PNA, PNA no-cors} x debug off/on x 17 request kinds, each with one attacker-sized field (Origin bytes / labels / field lines, ACRM bytes, ACRH bytes / elements / empty elements / OWS run / field lines) x sizes 1..10^5 bytes and 1..10^4 elements (quick) or 14 sizes up to 10^6 bytes and 11 up to 10^5 elements (thorough). " +
+	r.Rule("configuration kinds {allow-all, discrete, `*` headers anonymous, anonymous+authorization, credentialed, PNA, PNA no-cors} x debug off/on x 49 request kinds, each with one attacker-sized field (Origin bytes / labels / field lines, ACRM bytes, ACRH bytes / elements / empty elements / OWS run / field lines; list elements and bytes drawn from lower-case, mixed-case, upper-case, non-token, non-ASCII, padded and long templates) x sizes 1..10^5 bytes and 1..10^4 elements (quick) or 14 sizes up to 10^6 bytes and 11 up to 10^5 elements (thorough). " +
 		"evaluation = one AllocsPerRun measurement (runs+1 ServeHTTP calls) with a reusable minimal writer and a no-op handler on the plain build; oracle: allocations <= " + fmt.Sprint(c18Ceiling) + " at every size and allocations at any size <= (maximum over sizes <= 100) + " + fmt.Sprint(c18Slack) + ". non-trivial = measurement at size >= 100, distinct by construction")
 	r.Assume("the harness's writer, handler and pre-built request allocate nothing per call; GOMAXPROCS(1) during the measurement (testing.AllocsPerRun)")
 	if r.Variant != "plain" {
